@@ -145,6 +145,7 @@ TraceNext ==
         /\ Chk(e.a = "Drain" \/ X04_OkCommitted', "P", e, "X04_OkCommitted")
         /\ Chk(SameSequence', "P", e, "X04_SameSequence")
         /\ IF e.a \in {"Drain"} THEN TRUE
+           ELSE IF e.obs.queued THEN TRUE     \* a request waiting in a busy subscription: outside the specification
            ELSE IF e.obs.stuck # "" THEN
                 \* the step could not be driven to its end on this code: an observation, nothing to conform to
                 Chk(FALSE, "I", e, "stuck")
